@@ -85,6 +85,7 @@ fn neighbour(a: Amt, r: &mut Prng) -> Amt {
             }
         }
         Amt::D(c, f) => Amt::D(if r.chance(1, 2) { c.saturating_add(1) } else { c.saturating_sub(1) }, f),
+        Amt::X(hi, lo, f) => Amt::wide(Amt::coefficient(hi, lo) + if r.chance(1, 2) { 1 } else { -1 }, f),
     }
 }
 
